@@ -502,10 +502,18 @@ func (s *IndexedState) deleteDependencies(ctx *Context, id string) error {
 	}
 	Log(DEBUG, ctx, "IndexedState.deleteDependencies", "location", s.Name, "id", id, "found", len(srs.Found))
 
+	// The search is only as exact as the matcher: see dependsOn.
+	targets := make([]string, 0, len(srs.Found))
 	for _, sr := range srs.Found {
+		if dependsOn(s.IdToFact[sr.Id], id) {
+			targets = append(targets, sr.Id)
+		}
+	}
+
+	for _, target := range targets {
 		Log(DEBUG, ctx, "IndexedState.deleteDependencies",
-			"location", s.Name, "id", id, "target", sr.Id)
-		if _, err := s.rem(ctx, sr.Id); nil != err {
+			"location", s.Name, "id", id, "target", target)
+		if _, err := s.rem(ctx, target); nil != err {
 			return err
 		}
 	}
